@@ -87,7 +87,18 @@ def gen_case(rng):
     n = rng.choice([1, 1, 2])
     allow_dispose = rng.random() < 0.22
     progs = [_Gen(rng, 100 * i + 1, allow_dispose).body(0, []) for i in range(n)]
-    return {"op": "el_seq", "xie": rng.random() < 0.5, "progs": progs}
+    tz = {}
+
+    def walk(prog):
+        for o in prog:
+            if o[0] == "abs" and rng.random() < 0.6:
+                tz[str(o[1])] = rng.choice([-11, -5, 2, 9])  # the absolute due time is written in that zone (same instant)
+            if o[0] in ("sched", "rel", "abs"):
+                walk(o[-1])
+
+    for p in progs:
+        walk(p)
+    return {"op": "el_seq", "xie": rng.random() < 0.5, "progs": progs, "tz": tz}
 
 
 def cases(rng, tier):
@@ -138,7 +149,7 @@ def impl(case):
         # default schedule on NewThreadScheduler / ThreadPoolScheduler: oracle + per-item structural problems (the per-item model
         # replay runs in `extra`)
         return _one({"kind": case["kind"], "xie": True, "progs": case["progs"]}, {})[1]
-    cfg = {"progs": case["progs"], "xie": case["xie"]}
+    cfg = {"progs": case["progs"], "xie": case["xie"], "tz": case.get("tz")}
     res = thr_el.run_threads(cfg, {})
     if res["status"] == "hang":
         raise RuntimeError("controller hang")
